@@ -194,13 +194,45 @@ Definition fix_filter (igs0 : list integ) (f : cfilter) : option (cfilter * list
             [r_ig (f_ref f)], [(k, r_col (f_ref f))])
   end.
 
-(* only the TOP-LEVEL inputs are visited *)
+(* the inputs AND their components are visited (parent first), as repaired by
+   fixes/C05-filter-ref-on-components.diff: dig builds its column definitions
+   from Event.Selected(), which descends into Components *)
+Fixpoint fix_input (igs0 : list integ) (i : input) : option (input * list str * list addreq) :=
+  match i with
+  | Input ix n c f cs =>
+      match fix_filter igs0 f,
+            (fix go (l : list input) : option (list input * list str * list addreq) :=
+               match l with
+               | [] => Some ([], [], [])
+               | x :: r =>
+                   match fix_input igs0 x, go r with
+                   | Some (x', d, a), Some (r', ds, as_) => Some (x' :: r', d ++ ds, a ++ as_)
+                   | _, _ => None
+                   end
+               end) cs with
+      | Some (f', d, a), Some (cs', dc, ac) => Some (Input ix n c f' cs', d ++ dc, a ++ ac)
+      | _, _ => None
+      end
+  end.
 Fixpoint fix_inputs (igs0 : list integ) (l : list input)
   : option (list input * list str * list addreq) :=
   match l with
   | [] => Some ([], [], [])
+  | x :: r =>
+      match fix_input igs0 x, fix_inputs igs0 r with
+      | Some (x', d, a), Some (r', ds, as_) => Some (x' :: r', d ++ ds, a ++ as_)
+      | _, _ => None
+      end
+  end.
+
+(* before the repair only the TOP-LEVEL inputs were visited: a filter_ref on a
+   component escaped validation (no dependency, user-supplied table kept) *)
+Fixpoint legacy_fix_inputs (igs0 : list integ) (l : list input)
+  : option (list input * list str * list addreq) :=
+  match l with
+  | [] => Some ([], [], [])
   | Input ix n c f cs :: r =>
-      match fix_filter igs0 f, fix_inputs igs0 r with
+      match fix_filter igs0 f, legacy_fix_inputs igs0 r with
       | Some (f', d, a), Some (r', ds, as_) => Some (Input ix n c f' cs :: r', d ++ ds, a ++ as_)
       | _, _ => None
       end
@@ -256,6 +288,30 @@ Fixpoint apply_adds (adds : list addreq) (k : nat) (l : list integ) : list integ
 
 Definition validate_filter_refs (igs0 : list integ) : option (list integ) :=
   match fix_igs igs0 igs0 with
+  | None => None
+  | Some (l, adds) => Some (apply_adds adds 0 l)
+  end.
+
+(* the pass as it was before the repair *)
+Definition legacy_fix_ig (igs0 : list integ) (g : integ) : option (integ * list addreq) :=
+  match legacy_fix_inputs igs0 (ig_inputs g), fix_block igs0 (ig_block g) with
+  | Some (ins, d1, a1), Some (bl, d2, a2) =>
+      Some ({| ig_name := ig_name g; ig_enabled := ig_enabled g; ig_sources := ig_sources g;
+               ig_table := ig_table g; ig_agg := ig_agg g; ig_notif := ig_notif g;
+               ig_block := bl; ig_inputs := ins; ig_deps := ig_deps g ++ d1 ++ d2 |}, a1 ++ a2)
+  | _, _ => None
+  end.
+Fixpoint legacy_fix_igs (igs0 : list integ) (l : list integ) : option (list integ * list addreq) :=
+  match l with
+  | [] => Some ([], [])
+  | g :: r =>
+      match legacy_fix_ig igs0 g, legacy_fix_igs igs0 r with
+      | Some (g', a), Some (r', as_) => Some (g' :: r', a ++ as_)
+      | _, _ => None
+      end
+  end.
+Definition legacy_validate_filter_refs (igs0 : list integ) : option (list integ) :=
+  match legacy_fix_igs igs0 igs0 with
   | None => None
   | Some (l, adds) => Some (apply_adds adds 0 l)
   end.
@@ -355,6 +411,18 @@ Fixpoint fix_all (G : gen) (l : list integ) : option (list integ) :=
 Definition validate_fix (U : uni) (G : gen) (c : root) : option root :=
   if negb (check_user_input U (g_checked G) c) then None else
   match validate_filter_refs (integs c) with
+  | None => None
+  | Some igs1 =>
+      match fix_all G igs1 with
+      | None => None
+      | Some igs2 => Some {| sources := sources c; integs := igs2 |}
+      end
+  end.
+
+(* ValidateFix before the repair of ValidateFilterRefs *)
+Definition legacy_validate_fix (U : uni) (G : gen) (c : root) : option root :=
+  if negb (check_user_input U (g_checked G) c) then None else
+  match legacy_validate_filter_refs (integs c) with
   | None => None
   | Some igs1 =>
       match fix_all G igs1 with
